@@ -159,6 +159,30 @@ theorem C22_depth_merge_sound (H : Nat) (env : Nat → Nat) (acc : List HaloDept
 example : mergeDepth (mergeDepth (mergeDepth [] none 3) (some 7) 1) none 2 =
     [⟨3, none, false, false, false⟩, ⟨1, some 7, false, false, false⟩] := by decide
 
+/-- **The depth of a halo exchange covers every reader it serves** (`HaloReadAccess` +
+`_create_depth_list`, any number of readers): for the exchange of field `f` placed in front of
+`rest`, every argument `r` that reads `f` before its next writer needs, according to the
+specification, at most the depth the exchange is given — for every halo depth `H` and all
+extents (provided the requirement of `r` alone fits into the halo, `ReaderOK`). -/
+theorem C22_hex_covers_readers (H : Nat) (env : Nat → Nat) (cont : Bool) (f : Nat) (rest : Sched)
+    (r : Kern × Bound × Arg) (hr : r ∈ fwdReaders f rest) (hok : ReaderOK r.2.1 r.2.2)
+    (hdeep : infoNeed H env (readInfo r.1 r.2.1 r.2.2) ≤ H) :
+    (specNeed H env cont r.1 r.2.1 r.2.2).depth ≤ evalDepths H env (hexDepth f rest) := by
+  obtain ⟨h1, h2⟩ := readInfo_need H env cont r.1 r.2.1 r.2.2 hok
+  refine Nat.le_trans h1 ?_
+  unfold hexDepth
+  exact depthList_covers H env _ _ (List.mem_map_of_mem hr) h2 hdeep
+
+/-- non-vacuity: the exchange of field 2 in the probe invoke serves two stencil readers
+(`max(3, ext+1)`) -/
+example :
+    let k1 : Kern := ⟨false, [⟨0, .inc, false, none⟩, ⟨2, .read, true, some (.lit 2)⟩]⟩
+    let k2 : Kern := ⟨false, [⟨1, .inc, false, none⟩, ⟨2, .read, true, some (.var 7)⟩]⟩
+    (fwdReaders 2 [.loop k1 ⟨.halo 1, false⟩, .loop k2 ⟨.halo 1, false⟩]).length = 2 ∧
+    hexDepth 2 [.loop k1 ⟨.halo 1, false⟩, .loop k2 ⟨.halo 1, false⟩] =
+      [⟨3, none, false, false, false⟩, ⟨1, some 7, false, false, false⟩] := by
+  decide
+
 /-- known finding `C22-inc-to-max-depth-h1` on the model: redundant computation to the maximum
 depth for a `GH_INC` kernel, mesh halo depth 1, annexed dofs dirty on entry. -/
 theorem C22_safe_counterexample_inc_max_h1 :
